@@ -13,7 +13,9 @@ fn versions(lang: Lang) -> Vec<(&'static str, Vec<(&'static str, String)>)> {
     let a = "#[typeshare]\npub struct Alpha { pub id: u32, pub name: String }\n";
     let b = "#[typeshare]\n#[serde(tag = \"type\", content = \"content\")]\npub enum Beta { One(Alpha), Two { x: u32 }, Three }\n";
     let b_renamed = "#[typeshare]\n#[serde(rename = \"BetaRenamed\", tag = \"type\", content = \"content\")]\npub enum Beta { One(Alpha), Two { x: u32, y: Option<String> }, Three }\n";
-    let c = "#[typeshare]\npub type Gamma = Vec<Alpha>;\n";
+    // (an alias of an alias of a struct as a payload: what a backend works out about such a chain must come out the same in
+    // every process)
+    let c = "#[typeshare]\npub type Gamma = Vec<Alpha>;\n#[typeshare]\npub type Origin = Position;\n#[typeshare]\npub type Position = Alpha;\n#[typeshare]\n#[serde(tag = \"type\", content = \"content\")]\npub enum Moves { Jump(Origin), Walk(Position), Stay }\n";
     let unit_user = "#[typeshare]\npub struct UsesUnit { pub nothing: (), pub list: Vec<()> }\n";
     let no_unit = "#[typeshare]\npub struct UsesUnit { pub nothing: u32, pub list: Vec<u8> }\n";
     let _ = lang;
